@@ -16,7 +16,7 @@ def deck(m):
         L.append("VAPOIL")
     if has("POLYMER"):
         L.append("POLYMER")
-    L += ["METRIC", "TABDIMS", " %d %d /" % (ntsfun, ntpvt), "EQLDIMS", " %d /" % neql, "REGDIMS", " 3 1 0 3 /"]
+    L += [m.get("unit", "METRIC"), "TABDIMS", " %d %d /" % (ntsfun, ntpvt), "EQLDIMS", " %d /" % neql, "REGDIMS", " 3 1 0 3 /"]
     if has("THPRES"):
         L += ["EQLOPTS", " THPRES /"]
     if has("AQUCT"):
